@@ -1,5 +1,5 @@
 (* C02/Property.v — property C02 (connection lifecycle), theorems only. *)
-From CF Require Import C02.Model C02.Proofs.
+From CF Require Import C02.Model C02.Proofs C02.Locks.
 Open Scope Z_scope.
 
 (* FULL STATEMENT (for reference).  The property also demands absence of deadlock and thread death under
@@ -88,3 +88,19 @@ Theorem C02_overlapping_transitions_refuted :
   wf_trace [Requested; Established; Disconnected; Lost; Connected] = false.
 Proof. reflexivity. Qed.
 Print Assumptions C02_overlapping_transitions_refuted.
+
+(* ---------------------------------------------------------------- locks
+   Deadlock freedom under a lock-order discipline, at the level of states (threads with the locks they hold and
+   the lock they want): if every hold-and-want pair respects one strict order on locks and finished threads
+   hold nothing, no state is dead-locked.  The harness collects every hold-and-want pair of the real library
+   from its DetSched runs and checks that they are acyclic (lockdep style); the one cycle found is known
+   finding F02e, whose two states are shown dead-locked below. *)
+Theorem C02_lock_order_implies_no_deadlock : forall s, well_formed s -> ordered s -> ~ deadlocked s.
+Proof. exact ordered_not_deadlocked. Qed.
+Print Assumptions C02_lock_order_implies_no_deadlock.
+
+Theorem C02_send_lock_vs_mem_write_lock_refuted :
+  (well_formed f02e_two_threads /\ deadlocked f02e_two_threads) /\
+  (well_formed f02e_one_thread /\ deadlocked f02e_one_thread) /\ ~ ordered f02e_two_threads.
+Proof. exact (conj f02e_two_threads_deadlocked (conj f02e_one_thread_deadlocked f02e_not_orderable)). Qed.
+Print Assumptions C02_send_lock_vs_mem_write_lock_refuted.
